@@ -54,7 +54,15 @@ CHECKS = {
              "the bound, three scan orders, -j1/-j8 RAM.", "DESIGN.md#c10", cat="other"),
     "C11": R("Subsumption contract (no dominated tuple, only derivable tuples, minimal tuples for monotone-cost programs) decided on the emitted RAM "
              "for every database in the bound.", "DESIGN.md#c11", cat="other"),
+    "C15": R("For each corpus program the text printed by --show=initial-ast parses again and prints identically (direct runs of the real "
+             "parser/printer), and the RAM of the printed program is proved to satisfy the original program's semantics for every database "
+             "in the bound.  The parser itself is not encoded.", "DESIGN.md#c15"),
     "C16": R("RAM of component-wrapped programs proved equal to the least model of hand-flattened twins for every database in the bound.", "DESIGN.md#c16"),
+    "C19": R("RAM emitted with -t explain: projected outputs proved equal to the least model for every database in the bound; for every "
+             "annotated tuple the generated subproof subroutine returns a proof step whose body tuples have strictly smaller height.  "
+             "Tree assembly/rendering (ExplainProvenanceImpl.h) is outside.", "DESIGN.md#c19"),
+    "C20": R("RAM emitted with -p: outputs proved equal to the least model; the tuple count souffleprof derives from the size events equals "
+             "the final relation size as an identity over symbolic guards.  Event serialisation / souffleprof parsing outside.", "DESIGN.md#c20", cat="other"),
     "C23": R("limitsize contract (subset; equal when small; at least k otherwise) decided on the emitted RAM for every database in the bound.", "DESIGN.md#c23", cat="other"),
     "C30": dict(engine="K", cat="model_checking", tech="bounded model checking (CBMC, SAT) of IR-derived C of the real lock, all interleavings of 3 clients",
                 text="Every role triple of {write, try-write, upgrade, abort, read} over the real OptimisticReadWriteLock methods is one CBMC query "
